@@ -19,14 +19,11 @@ Lemma existsb_rev {A} (f : A -> bool) (l : list A) : existsb f (rev l) = existsb
 Proof. induction l as [|a l IH]; [reflexivity|]. cbn [rev existsb]. rewrite existsb_app. cbn [existsb]. rewrite IH, orb_false_r. apply orb_comm. Qed.
 
 Lemma version_list_range_in (lhs : list N) : forall vs,
-  (forall v, In v vs -> fst v = 0 /\ snd (snd v) = FINAL) ->
   in_range (version_list_range vs) (final_version lhs) = existsb (fun v => is_eq (rel_cmp lhs (fst (snd v)))) vs.
 Proof.
-  induction vs as [|v vs IH]; intros Hv; [reflexivity|]. cbn [version_list_range existsb].
+  induction vs as [|v vs IH]; [reflexivity|]. cbn [version_list_range existsb].
   rewrite in_union by (try apply sorted_singleton; apply version_list_range_sorted).
-  rewrite IH by (intros v' I; apply Hv; right; exact I). f_equal.
-  destruct (Hv v (or_introl eq_refl)) as [He Hs]. destruct v as [e [rel suf]]. cbn [fst snd] in *. subst.
-  rewrite in_singleton. change (norm_version (0, (rel, FINAL))) with (final_version rel). now rewrite final_cmp.
+  rewrite IH. f_equal. now rewrite in_singleton, final_cmp.
 Qed.
 
 (** one comparison *)
@@ -45,13 +42,13 @@ Proof.
   - destruct (N.eqb_spec k pv) as [-> | Ne].
     + rewrite Hpfv. change (major_minor [X; Y; Z]) with [X; Y].
       apply (pv_in_spec pv pfv vs neg r X Y Z); [|now rewrite Hrv, Hpfv].
-      intros v I. destruct (Sc v I) as (_ & _ & Hn & Hl). split; [exact Hn|now apply Hl].
+      intros v I. destruct (Sc v I) as (Hn & Hl). split; [exact Hn|now apply Hl].
     + cbn [expression]. destruct (N.eqb_spec k pv) as [E|_]; [contradiction|].
       assert (r_sorted (version_list_range (rev vs))) as S by apply version_list_range_sorted.
       unfold spec_in.
       assert (in_range (version_list_range (rev vs)) (final_version (pe_release e k))
               = existsb (fun lit => is_eq (rel_cmp (pe_release e k) lit)) (map (fun v => fst (snd v)) vs)) as Hin.
-      { rewrite version_list_range_in by (intros v I; apply in_rev in I; destruct (Sc v I) as (? & ? & _); auto).
+      { rewrite version_list_range_in.
         rewrite existsb_rev. clear. induction vs as [|v vs IH]; [reflexivity|]. cbn [map existsb]. now rewrite IH. }
       destruct neg; rewrite eval_range_node by auto using sorted_complement; rewrite Hrv, ?in_complement, Hin; cbn [xorb]; [reflexivity|].
       now destruct (existsb _ _).
